@@ -220,11 +220,33 @@ func c19GridGaps(thorough bool, visit func(src string, elk bool)) {
 	}
 }
 
+// c19Overflow: grids that declare BOTH grid-rows and grid-columns (in either order: the first keyword is the dominant
+// direction) and hold more cells than rows*columns, so that d2grid has to grow the other dimension.
+func c19Overflow(visit func(src string)) {
+	names := []string{"a", "b", "c2", "d", "e", "f", "h", "i", "j", "k", "l", "m", "n2", "o", "p", "q", "r", "s", "t"}
+	for r := 1; r <= 4; r++ {
+		for c := 1; c <= 4; c++ {
+			for extra := 1; extra <= 3; extra++ {
+				n := r*c + extra
+				for _, rowsFirst := range []bool{true, false} {
+					body := fmt.Sprintf("grid-columns: %d; grid-rows: %d", c, r)
+					if rowsFirst {
+						body = fmt.Sprintf("grid-rows: %d; grid-columns: %d", r, c)
+					}
+					body += "; " + strings.Join(names[:n], "; ")
+					visit("g: {" + body + "}")
+					visit("c.g: {" + body + "}\nc.d -> c.g")
+				}
+			}
+		}
+	}
+}
+
 func init() {
 	eng.Register(&eng.Check{
 		ID: "C19", Level: "exploration", HangBound: 900 * time.Second,
 		QuickBudget: 240 * time.Second, ThoroughBudget: 24 * time.Minute,
-		Rule: "every program of <=k statements over the geometry fragment FLgeo (FL without stand-alone sequence diagrams, plus crowded containers: several children, long labels, outside labels/icons, 3d/multiple, explicit sizes, grids and a sequence diagram as children) laid out with dagre and ELK, plus nested grids (3 bodies x 4 placements) x every assignment of {unset,0,10,100} to grid-gap / horizontal-gap / vertical-gap; on the exported d2target.Diagram every shape must lie inside its parent shape's box and shapes with the same parent (top level included) must not overlap, both within 1 px; non-trivial = at least one child/parent or sibling pair was compared; outcome = multiset of exported boxes",
+		Rule: "every program of <=k statements over the geometry fragment FLgeo (FL without stand-alone sequence diagrams, plus crowded containers: several children, long labels, outside labels/icons, 3d/multiple, explicit sizes, grids and a sequence diagram as children) laid out with dagre and ELK, plus nested grids (3 bodies x 4 placements) x every assignment of {unset,0,10,100} to grid-gap / horizontal-gap / vertical-gap, plus grids with both grid-rows and grid-columns <=4 in either keyword order holding 1..3 cells more than rows*columns (top level and inside a container); on the exported d2target.Diagram every shape must lie inside its parent shape's box and shapes with the same parent (top level included) must not overlap, both within 1 px; non-trivial = at least one child/parent or sibling pair was compared; outcome = multiset of exported boxes",
 		Assumptions: []string{
 			"objects inside sequence diagrams are excluded (C23); the sequence diagram object itself is checked as a child and sibling",
 			"top-level constant-near shapes are excluded from the sibling clause (C24 places them relative to the bounding box)",
@@ -250,6 +272,12 @@ func init() {
 					if elk {
 						emit("layout", mkIn("elk", src))
 					}
+				})
+			})
+			chunked(w, "overflowing-grids:rows,cols<=4:dagre+elk", 2, func(emit func(string, string)) {
+				c19Overflow(func(src string) {
+					emit("layout", mkIn("dagre", src))
+					emit("layout", mkIn("elk", src))
 				})
 			})
 			if !w.Thorough() {
